@@ -67,25 +67,25 @@ Print Assumptions C08_tags_refuted.
 (* What the repair bought: the earlier line() (variant false: quotes only the empty value and values with '=' ',')
    printed these accepted sets so that the line was rejected or denoted another set ... *)
 Theorem C08_tags_trailing_brace_unquoted_refuted : forall quote unquote, QuoteSpec quote unquote ->
-  exists s m, to_map unquote s = Ok m /\ to_map unquote (line_v false quote m) = Err.
+  exists s m, to_map unquote s = Ok m /\ to_map unquote (line_v false false quote m) = Err.
 Proof. exact tags_trailing_brace. Qed.
 Print Assumptions C08_tags_trailing_brace_unquoted_refuted.
 Theorem C08_tags_edge_blank_unquoted_refuted : forall quote unquote, QuoteSpec quote unquote ->
-  exists s m m', to_map unquote s = Ok m /\ to_map unquote (line_v false quote m) = Ok m' /\ m' <> m.
+  exists s m m', to_map unquote s = Ok m /\ to_map unquote (line_v false false quote m) = Ok m' /\ m' <> m.
 Proof. exact tags_edge_blank. Qed.
 Print Assumptions C08_tags_edge_blank_unquoted_refuted.
 Theorem C08_tags_leading_dquote_unquoted_refuted : forall quote unquote, QuoteSpec quote unquote -> OracleFacts quote unquote ->
-  exists s m m', to_map unquote s = Ok m /\ to_map unquote (line_v false quote m) = Ok m' /\ m' <> m.
+  exists s m m', to_map unquote s = Ok m /\ to_map unquote (line_v false false quote m) = Ok m' /\ m' <> m.
 Proof. exact tags_leading_dquote. Qed.
 Print Assumptions C08_tags_leading_dquote_unquoted_refuted.
 Theorem C08_tags_leading_backquote_unquoted_refuted : forall quote unquote, QuoteSpec quote unquote -> OracleFacts quote unquote ->
-  exists s m m', to_map unquote s = Ok m /\ to_map unquote (line_v false quote m) = Ok m' /\ m' <> m.
+  exists s m m', to_map unquote s = Ok m /\ to_map unquote (line_v false false quote m) = Ok m' /\ m' <> m.
 Proof. exact tags_leading_backquote. Qed.
 Print Assumptions C08_tags_leading_backquote_unquoted_refuted.
 (* ... and printed two different sets as one line *)
 Theorem C08_tags_injective_unquoted_refuted : forall quote unquote, QuoteSpec quote unquote -> OracleFacts quote unquote ->
   exists s1 s2 m1 m2, to_map unquote s1 = Ok m1 /\ to_map unquote s2 = Ok m2 /\ m1 <> m2 /\
-    line_v false quote m1 = line_v false quote m2.
+    line_v false false quote m1 = line_v false false quote m2.
 Proof. exact tags_collision. Qed.
 Print Assumptions C08_tags_injective_unquoted_refuted.
 (* the code prints every one of those sets so that it comes back *)
@@ -109,6 +109,28 @@ Proof.
   - apply forallb_forall. exact (to_map_names unquote s2 m2 H2).
 Qed.
 Print Assumptions C08_tags_injective.
+
+(* the line is ONE line: for an accepted set none of whose names holds a line feed the line() of the code contains no
+   line feed (a value holding one is written as a quoted literal, and strconv.Quote escapes it: QuoteNoLF).  The LQL
+   lexer reads a {tags} literal within one line (C12) *)
+Theorem C08_tags_single_line : forall quote unquote, QuoteNoLF quote ->
+  forall s m, to_map unquote s = Ok m -> forallb (fun kv => negb (has LF (fst kv))) m = true ->
+    has LF (line quote m) = false.
+Proof.
+  intros quote unquote QN s m Hm. apply (line_single_line quote QN).
+  apply SS_keys_sorted. exact (to_map_canonical unquote s m Hm).
+Qed.
+Print Assumptions C08_tags_single_line.
+(* what the line-break repair bought: the earlier valueNeedsQuote (variant nl = false) printed such a value raw; the
+   line was accepted back (no C08 violation), but it holds a line feed *)
+Theorem C08_tags_line_break_raw_refuted : forall quote unquote, QuoteSpec quote unquote ->
+  exists s m, to_map unquote s = Ok m /\ forallb (fun kv => negb (has LF (fst kv))) m = true /\
+    has LF (line_v true false quote m) = true /\ to_map unquote (line_v true false quote m) = Ok m.
+Proof.
+  intros quote unquote QS. destruct (tags_line_break_raw quote unquote QS) as (H1 & H2 & H3).
+  exists (A ++ EQ :: quote V_NL), [(A, V_NL)]. split; [exact H1|]. split; [reflexivity|]. split; [exact H2|exact H3].
+Qed.
+Print Assumptions C08_tags_line_break_raw_refuted.
 
 (* emitting is deterministic: the line does not depend on the order in which the Go map is iterated *)
 Theorem C08_canonical : forall quote m ord, keys_sorted m = true -> Permutation ord m ->
@@ -166,6 +188,37 @@ Theorem C08_pipe_provenance_partial : forall quote unquote, QuoteSpec quote unqu
   fields_of_kv unquote (line quote m) = Ok (enc_fields (flat m)).
 Proof. intros quote unquote QS m. exact (provenance quote unquote QS m). Qed.
 Print Assumptions C08_pipe_provenance_partial.
+(* the same end to end (pkg/pipe worker + siterator): what the destination partition holds for an event with the fields
+   lo copied from the partition with the tag set m is lo followed by the pairs of m, and the Fields text a query emits
+   for it parses back to exactly that list -- for the same class of source tag sets *)
+Theorem C08_pipe_destination_partial : forall quote unquote, QuoteSpec quote unquote ->
+  forall m lo, keys_sorted m = true -> tag_safe m = true -> forallb prov_pair_ok m = true -> Forall pair_le255 lo ->
+    let own := enc_fields (flat lo) in
+    pipe_fields quote unquote own m = enc_fields (flat (lo ++ m)) /\
+    exists t, as_kv quote (pipe_fields quote unquote own m) = Ok t /\
+              fields_of_kv unquote t = Ok (enc_fields (flat (lo ++ m))).
+Proof. intros quote unquote QS m lo. exact (pipe_destination quote unquote QS m lo). Qed.
+Print Assumptions C08_pipe_destination_partial.
+(* a source tag value (or name) of more than 255 bytes: the tag set is accepted and its line denotes it, but
+   field.Parse fails on the line and the error is dropped -- the copied events carry no provenance field at all *)
+Theorem C08_pipe_long_item_refuted : forall quote unquote,
+  exists s m, to_map unquote s = Ok m /\ m <> [] /\ to_map unquote (line quote m) = Ok m /\
+    forall own, pipe_fields quote unquote own m = own.
+Proof.
+  intros quote unquote. destruct (pipe_long_value_no_provenance quote unquote) as (H1 & _ & H3 & H4).
+  exists (A ++ EQ :: LONGV), [(A, LONGV)]. split; [exact H1|]. split; [discriminate|]. split; [exact H3|exact H4].
+Qed.
+Print Assumptions C08_pipe_long_item_refuted.
+(* the {vars} element of the formatter (forwarder sinks, the shell): the tag line, ',' and the field text.  For the same
+   class of tag sets the emitted text is accepted by the field parser and denotes the pairs of the tag set followed
+   by the event's fields *)
+Theorem C08_format_vars_partial : forall quote unquote, QuoteSpec quote unquote ->
+  forall m lo, keys_sorted m = true -> tag_safe m = true -> forallb prov_pair_ok m = true -> m <> [] ->
+    Forall pair_le255 lo ->
+    exists t, vars_text quote (line quote m) (enc_fields (flat lo)) = Ok t /\
+              fields_of_kv unquote t = Ok (enc_fields (flat (m ++ lo))).
+Proof. intros quote unquote QS m lo. exact (vars_roundtrip quote unquote QS m lo). Qed.
+Print Assumptions C08_format_vars_partial.
 (* a tag name that is a quoted literal is kept by the tag parser and unquoted by the field parser *)
 Theorem C08_pipe_provenance_refuted : forall quote unquote, OracleFacts quote unquote -> ~ C08_pipe_provenance_statement quote unquote.
 Proof.
@@ -177,8 +230,8 @@ Print Assumptions C08_pipe_provenance_refuted.
 
 (* ---- non-vacuity ---- *)
 (* the hypotheses on the oracles are satisfiable *)
-Example C08_oracle_hypotheses_consistent : QuoteSpec squote sunquote /\ OracleFacts squote sunquote.
-Proof. split; [exact squote_spec|exact squote_facts]. Qed.
+Example C08_oracle_hypotheses_consistent : QuoteSpec squote sunquote /\ OracleFacts squote sunquote /\ QuoteNoLF squote.
+Proof. split; [exact squote_spec|]. split; [exact squote_facts|exact squote_no_lf]. Qed.
 (* a safe tag set with values that need quoting for the old and for the new reasons (separators; a blank at an end, a
    leading double quote, a closing brace at the end of the line), balanced inner quotes, backslashes and non-ASCII bytes *)
 Example C08_safe_tags_nontrivial :
